@@ -37,6 +37,7 @@ class XMLTransformer(XMLGenerator, LexicalHandler):
         self.changes: list[Change] = []
         self._my_locator = Locator()
         self.line_only_matching = line_only_matching
+        self._in_cdata = False
         super().__init__(out, encoding, short_empty_elements)
 
     def startElement(self, name, attrs):
@@ -46,6 +47,10 @@ class XMLTransformer(XMLGenerator, LexicalHandler):
         super().endElement(name)
 
     def characters(self, content):
+        if self._in_cdata:
+            # CDATA content is literal: it must not be escaped
+            self._write(content)  # type: ignore
+            return
         super().characters(content)
 
     def skippedEntity(self, name: str) -> None:
@@ -56,12 +61,19 @@ class XMLTransformer(XMLGenerator, LexicalHandler):
 
     def startCDATA(self):
         self._write("<![CDATA[")  # type: ignore
+        self._in_cdata = True
 
     def endCDATA(self):
+        self._in_cdata = False
         self._write("]]>")  # type: ignore
 
     def startDTD(self, name: str, public_id: str | None, system_id: str | None):
-        self._write(f'<!DOCTYPE {name} PUBLIC "{public_id}" "{system_id}">\n')  # type: ignore
+        external_id = ""
+        if public_id is not None:
+            external_id = f' PUBLIC "{public_id}" "{system_id}"'
+        elif system_id is not None:
+            external_id = f' SYSTEM "{system_id}"'
+        self._write(f"<!DOCTYPE {name}{external_id}>\n")  # type: ignore
         return super().startDTD(name, public_id, system_id)
 
     def endDTD(self) -> object:
